@@ -172,6 +172,8 @@ def factsBeforeRound3 : TcFacts :=
     cmpConvErrKept := false, zeroConst := .untypedSign, opAssignZeroChecked := false, quoFloatZeroOk := false,
     indexNegChecked := false, indexOperandChecked := false, recvDecl := .legacy, recvAssign := .legacy,
     callValueChecked := false, convTypedConstChecked := false }
+/-- `factsBeforeRound3` differs from the expected facts in the 17 decisions of the repairs only -/
+example : factsBeforeRound3.arrayLitBound = .runningIndex ∧ factsBeforeRound3.argCountCmp = .lt := by decide
 def verdictBefore (p : Prog) : Verdict := (checkProg (rulesY factsBeforeRound3) p).verdict
 
 /-! #### regression examples: the replays of the repaired findings agree with the specification, inside the domain -/
@@ -356,6 +358,12 @@ theorem call_value_in_conversion_witness :
     verdictY progConvNoValue = .crash ∧ verdictG progConvNoValue = .err ∧ DomP progConvNoValue = false := by
   unfold verdictY DomP; rw [tcfacts_tie]; decide
 
+/-- F12-23: `x := complex64(int(0))` is a constant conversion Go allows; `convertibleTo` (int → complex64) rejects it -/
+def progComplexOfTyped : Prog := main [.define (.conv (.s (.basic .complex64)) (.conv tInt (.lit .int 0 false)))]
+theorem typed_constant_to_complex_witness :
+    verdictY progComplexOfTyped = .err ∧ DomP progComplexOfTyped = false := by
+  unfold verdictY DomP; rw [tcfacts_tie]; decide
+
 /-- F12-11 (open part): `var a chan int; var b <-chan int; x := a == b` is valid Go and is rejected -/
 def progChanCmp : Prog := main [.declz (.chan .both (.basic .int)), .declz (.chan .recv (.basic .int)), .define (.cmp .eq (.var 0) (.var 1))]
 theorem accepts_welltyped_witness : verdictG progChanCmp = .ok ∧ verdictY progChanCmp = .err ∧ DomP progChanCmp = false := by
@@ -524,5 +532,36 @@ theorem negative_index_rejected (i i' : Opnd) (max : Option Nat)
   have hT : Generated.C12.tcFacts.indexNegChecked = true := by rw [tcfacts_tie]; rfl
   have ho : Generated.C12.tcFacts.ops = Generated.C12.opFacts := by rw [tcfacts_tie, opfacts_tie]; rfl
   exact index_negative_rejected _ hT i i' max (by rw [ho]; exact hc) v hv hneg
+
+/-! #### array and slice literals (outside the expression fragment): the index discipline of `arrayLitExpr` -/
+
+/-- **array / slice literal indexes**: for every array type of length ≥ 1 and every slice type, and EVERY list of keyed
+    and positional elements, typecheck.go `arrayLitExpr` accepts exactly the index sequences the specification allows
+    (an element without key uses the previous index plus one; keys are non-negative; every index of an array literal
+    is below the length; no index occurs twice) -/
+theorem array_literal_index_correct (isArray : Bool) (length : Nat)
+    (hl : isArray = true → length ≥ 1) (hs : isArray = false → length = 0) (es : List LitElem) :
+    arrayLitY Generated.C12.tcFacts isArray length es 0 0 [] =
+      Spec.arrayLitG (if isArray then some length else none) es 0 [] := by
+  rw [tcfacts_tie]
+  exact arrayLit_agree _ rfl rfl isArray length hl hs es 0 0 []
+
+/-- non-vacuity and the seeded change of seeded/C12-3: `[3]int{2: 30, 40}` (a key followed by a positional element
+    running past the end) is rejected by both sides; with the bounds test reading the position in the literal
+    (`.loopPosition`) the model accepts it; `[3]int{0: 1, 2: 3, 1: 2}` is accepted, `[]int{1: 1, 0: 0, 5}` (duplicate
+    index 1) rejected -/
+theorem array_literal_examples :
+    (arrayLitY Generated.C12.tcFacts true 3 [.keyed 2, .pos] 0 0 []).verdict = .err ∧
+    (Spec.arrayLitG (some 3) [.keyed 2, .pos] 0 []).verdict = .err ∧
+    (arrayLitY { Expected.C12.tcFacts with arrayLitBound := .loopPosition } true 3 [.keyed 2, .pos] 0 0 []).verdict = .ok ∧
+    (arrayLitY Generated.C12.tcFacts true 3 [.keyed 0, .keyed 2, .keyed 1] 0 0 []).verdict = .ok ∧
+    (arrayLitY Generated.C12.tcFacts false 0 [.keyed 1, .keyed 0, .pos] 0 0 []).verdict = .err := by
+  rw [tcfacts_tie]; decide
+
+/-- F12-18 (zero-length arrays): `[0]int{0: 1}` — the key is not checked against the length 0 -/
+theorem array_literal_zero_length_witness :
+    (arrayLitY Generated.C12.tcFacts true 0 [.keyed 0] 0 0 []).verdict = .ok ∧
+    (Spec.arrayLitG (some 0) [.keyed 0] 0 []).verdict = .err := by
+  rw [tcfacts_tie]; decide
 
 end YaegiVerif.Props.C12
